@@ -123,12 +123,46 @@ class RankFacts:
                 n += 1
         return n
 
+    def learn_loop_invariants(self):
+        """A loop-carried tensor keeps its rank: the end-of-iteration value of a loop variable
+        has the rank of its initial value (and so has the base of an indexed store into it)."""
+        self.forced: Dict[int, int] = getattr(self, "forced", {})
+        for pid, body in list(vg.LOOP_BODY.items()):
+            ph = vg.LOOP_PH.get(pid)
+            if ph is None or len(ph.args) < 2 or not isinstance(ph.args[1], S):
+                continue
+            r = self.rank(ph.args[1])
+            if r is None:
+                continue
+            self.forced[ph.id] = r
+            b = body
+            for _ in range(6):
+                self.forced[b.id] = r
+                b1 = nf.strip(b)
+                self.forced[b1.id] = r
+                if b1.op == "store" and isinstance(b1.args[0], S):
+                    b = b1.args[0]
+                else:
+                    break
+
     def rank(self, s: S, depth=0) -> Optional[int]:
         if depth > 30:
             return None
+        f = getattr(self, "forced", None)
+        if f and s.id in f:
+            return f[s.id]
+        fn0 = nf._fn(s)
+        if fn0 in ("torch.zeros", "torch.ones", "torch.full", "torch.empty"):
+            return self._ctor_rank(s)
+        if fn0 in ("torch.zeros_like", "torch.ones_like", "torch.full_like") and len(s.args) >= 2 and isinstance(s.args[1], S):
+            return self.rank(s.args[1], depth + 1)
         s0 = s
         if s.op in ("cell0",):
             return self.cell_rank.get(s.args[1])
+        if s.op == "loopvar" and len(s.args) > 1 and isinstance(s.args[1], S):
+            return self.rank(s.args[1], depth + 1)
+        if s.op == "loop":
+            return self.rank(s.args[0], depth + 1)
         if s.op == "nograd":
             return self.rank(s.args[0], depth + 1)
         if s.op in ("+", "-", "*", "/", "&", "|", "<", "<=", ">", ">=", "==", "!="):
@@ -281,6 +315,28 @@ def batch_global(n: S, ranks: Optional[RankFacts] = None) -> Optional[Hit]:
     return None
 
 
+ELEMENTWISE = {"+", "-", "*", "/", "<", "<=", ">", ">=", "==", "!=", "&", "|"}
+
+
+def rank_mismatch(n: S, ranks: Optional[RankFacts]) -> Optional[Hit]:
+    """[B] (rank 1) combined elementwise with a batch-leading tensor of rank >= 2: trailing-axis
+    broadcasting aligns the batch axis of the first with a non-batch axis of the second
+    ([B] op [B, 1] silently becomes [B, B])."""
+    if ranks is None or n.op not in ELEMENTWISE or len(n.args) != 2:
+        return None
+    a, b = n.args
+    if not (isinstance(a, S) and isinstance(b, S)) or is_scalarish(a) or is_scalarish(b):
+        return None
+    ra, rb = ranks.rank(a), ranks.rank(b)
+    if ra is None or rb is None or ra == rb:
+        return None
+    lo, hi = (a, b) if ra < rb else (b, a)
+    if min(ra, rb) == 1 and max(ra, rb) >= 2:
+        return Hit(n, "rank-broadcast", hi, f"a rank-1 [B] value is combined with a rank-{max(ra, rb)} batch-leading value without aligning the batch axis: "
+                   f"broadcasting yields a [.., B, B]-shaped result that mixes rows")
+    return None
+
+
 def _is_batch_size(x: S) -> bool:
     x = nf.strip(x)
     if x.op == "sub" and _cint(x.args[1]) == 0:
@@ -298,6 +354,8 @@ def hits(v: S, ranks: Optional[RankFacts] = None, stop=None) -> List[Hit]:
     out = []
     for n in vg.walk(v, stop=stop):
         h = batch_global(n, ranks)
+        if h is None:
+            h = rank_mismatch(n, ranks)
         if h is not None:
             out.append(h)
     return out
